@@ -1114,9 +1114,65 @@ struct Engine
         return s;
     }
 
+    // C11: iterator OBJECTS that were obtained before the operation and are assigned a fresh position afterwards must
+    // denote the same elements as operator[] (an assignment has to replace everything the iterator holds, whatever the
+    // old iterator pointed to - it may be invalidated, it is only assigned to, never dereferenced)
+    std::optional<typename Vec::iterator> kept_it[2];
+    std::optional<typename Vec::const_iterator> kept_cit[2];
+    void keep_iterators()
+    {
+        for (int t = 0; t < 2; ++t)
+        {
+            kept_it[t].reset();
+            kept_cit[t].reset();
+            if (!m[t].present || m[t].moved) continue;
+            kept_it[t] = v[t]->begin();
+            kept_cit[t] = std::as_const(*v[t]).begin();
+        }
+    }
+    void reassigned_iterator_monitors()
+    {
+        for (int t = 0; t < 2; ++t)
+        {
+            if (!kept_it[t] || !m[t].present || m[t].moved) continue;
+            Vec& vv = *v[t];
+            const Vec& cv = vv;
+            const std::size_t n = std::min(m[t].el.size(), vv.size());
+            for (std::size_t j = 0; j <= n; ++j)
+            {
+                const auto d = static_cast<std::ptrdiff_t>(j);
+                auto it = *kept_it[t];
+                auto cit = *kept_cit[t], cit2 = *kept_cit[t];
+                it = vv.begin() + d;    // same-type assignment
+                cit = vv.begin() + d;   // converting assignment iterator -> const_iterator
+                cit2 = cv.begin() + d;  // same-type assignment (const)
+                auto bad = [&](const char* what)
+                {
+                    report("C11", "iterator", std::string("reassigned-iterator:") + what,
+                           "an iterator obtained before %s and assigned begin()+%zu afterwards: %s", OP_NAMES[last.k], j, what);
+                };
+                if (!(it == vv.begin() + d) || !(cit == cv.begin() + d) || !(cit2 == cv.begin() + d)) bad("compares unequal to begin()+i");
+                if (it.index() != j || cit.index() != j || cit2.index() != j) bad("index() is wrong");
+                if (j < n)
+                {
+                    const auto want = LS::extents(cv[j]);
+                    const auto e1 = LS::extents(*it), e2 = LS::extents(*cit), e3 = LS::extents(*cit2);
+                    for (std::size_t k = 0; k < N; ++k)
+                    {
+                        if (e1[k].addr != want[k].addr || e1[k].count != want[k].count) bad("*it denotes other objects than operator[]");
+                        if (e2[k].addr != want[k].addr || e2[k].count != want[k].count)
+                            bad("*const_iterator (assigned from an iterator) denotes other objects than operator[]");
+                        if (e3[k].addr != want[k].addr || e3[k].count != want[k].count) bad("*const_iterator denotes other objects than operator[]");
+                    }
+                }
+            }
+        }
+    }
+
     // C16 (+ the "does nothing at all" clause of C10): evaluated right after apply()
     void transition_monitors(const Snap& pre, const Op& o)
     {
+        if (prm.on("C11")) reassigned_iterator_monitors();
         const Snap post = snapshot(false);
         const unsigned allocs = L().allocs_this_op;
         auto same_objects = [&](int ts, int tt, std::size_t upto_index, const char* what)
